@@ -80,8 +80,16 @@ def r15a(P, R):
             # a dispatcher: a method of LoadedSchema that applies one function parameter per route
             if (f0.self_adt or "").endswith("LoadedSchema") or "LoadedSchema" in (f0.self_ty or ""):
                 pv = Prov(f0)
-                ga = {a[1] for a in pv.atoms(tab["GraphQL"]["body"]) if a[0] == "param"} - {"self"}
-                ia = {a[1] for a in pv.atoms(tab["Introspection"]["body"]) if a[0] == "param"} - {"self"}
+
+                def applied(arm):
+                    """parameters the arm *calls* (`graphql(gql)`, `f.call(..)`): the function parameters of a dispatcher.  A method
+                    that merely uses a data parameter in both arms (merging a list of loaded schemas) is not one."""
+                    out = set()
+                    for y in subnodes(arm["body"]):
+                        if y.get("k") == "Call" and y.get("f", {}).get("k") == "Path" and "local" in y["f"]:
+                            out |= {a[1] for a in pv.atoms(y["f"]) if a[0] == "param"}
+                    return out - {"self"}
+                ga, ia = applied(tab["GraphQL"]), applied(tab["Introspection"])
                 if ga or ia:
                     dispatchers.append(f0)
                     if ga and ia and not (ga & ia):
@@ -165,11 +173,59 @@ def kind_guard(f, pv, idx):
             ks = cond_kinds(pv, ctx[1]["cond"])
             if ks is not None:
                 return ks, ctx[1]["then"]
-        elif ctx[0] == "arm" and ctx[1] is not None and ctx[1].get("src") == "Normal" and _kind_expr(pv, ctx[1]["scrut"]):
-            ks = {v for v in pat_lits(ctx[2]["pat"]) if isinstance(v, str)}
-            if ks and "guard" not in ctx[2]:
-                return ks, ctx[2]["body"]
+        elif ctx[0] == "arm" and ctx[1] is not None and ctx[1].get("src") == "Normal" and "guard" not in ctx[2]:
+            if _kind_expr(pv, ctx[1]["scrut"]):
+                ks = {v for v in pat_lits(ctx[2]["pat"]) if isinstance(v, str)}
+                if ks:
+                    return ks, ctx[2]["body"]
+            # the kind was parsed into an enum of the crate first: the arm's variants stand for the literals they are made from
+            vs = _crate_variants(ctx[2]["pat"])
+            if vs and all(v in _TAGS for v in vs):
+                return set().union(*(_TAGS[v] for v in vs)), ctx[2]["body"]
     return None, None
+
+
+_TAGS = {}
+
+
+def _crate_variants(pat):
+    return {norm(x.get("ctor_of") or x.get("def")) for x in subnodes(pat) if x.get("k") in ("Struct", "TupleStruct", "PatExpr", "Path")
+            and (x.get("ctor_of") or x.get("def")) and norm(x.get("ctor_of") or x.get("def")).startswith(INC)}
+
+
+def tag_tables(P):
+    """{variant path of an enum of the introspection crate: the __TypeKind literals it stands for}, read from the `match`es that
+    turn a kind string into an enum value (`"LIST" => TypeKind::List`) and one tag enum into another (`TypeKind::List => Wrapper::List`)"""
+    tags = {}
+    fns = [f for f in P.fns.values() if f.path.startswith(INC) and not f.derived and "::tests" not in f.path]
+    for _ in range(3):
+        for f in fns:
+            for m in f.walk():
+                if m.get("k") != "Match" or m.get("src") != "Normal":
+                    continue
+                for arm in m["arms"]:
+                    if "guard" in arm:
+                        continue
+                    keys = {v for v in pat_lits(arm["pat"]) if isinstance(v, str)}
+                    if not keys:
+                        vs = _crate_variants(arm["pat"])
+                        if vs and all(v in tags for v in vs):
+                            keys = set().union(*(tags[v] for v in vs))
+                    if not keys:
+                        continue
+                    e = arm["body"]
+                    while e.get("k") in ("BlockExpr", "DropTemps", "Use") or (e.get("k") == "Call" and (call_name(e) or "").endswith(("Option::Some", "Result::Ok")) and e["args"]):
+                        if e.get("k") == "BlockExpr":
+                            if e["b"]["stmts"] or "tail" not in e["b"]:
+                                break
+                            e = e["b"]["tail"]
+                        elif e.get("k") == "Call":
+                            e = e["args"][0]
+                        else:
+                            e = e["e"]
+                    if e.get("k") == "Path" and e.get("def") and norm(e["def"]).startswith(INC) and "Ctor" in (e.get("dk") or ""):
+                        tags.setdefault(norm(e["def"]), set()).update(keys)
+    return tags
 
 
 def ctor_sites(f, suffix):
@@ -194,11 +250,18 @@ def r15b(P, R):
     # actually tests the kind literals
     cands = [P.fns[p] for p in sorted(P.reachable([at0])) if p.startswith(INC) and not P.fns[p].derived]
     cands = [f for f in cands if "NON_NULL" in {x.get("v") for x in f.walk() if x.get("lk") == "str" and x.get("k") in ("Lit", "PatExpr")}]
-    at = cands[0] if cands else at0
-    rec_set = {f.path for f in cands} | {at0.path}
-    lits = set(x.get("v") for x in at.walk() if x.get("lk") == "str" and x.get("k") in ("Lit", "PatExpr"))
+    lit_fn = cands[0] if cands else at0
+    # ... and the one that builds the wrappers (the same function unless the kind is first parsed into an enum of the crate)
+    builders = [f for f in [at0] + [P.fns[p] for p in sorted(P.reachable([at0])) if p.startswith(INC) and not P.fns[p].derived and p != at0.path]
+                if any(v == "List" for _, v in ctor_sites(f, "Type"))]
+    at = lit_fn if (lit_fn in builders or not builders) else builders[0]
+    rec_set = {f.path for f in cands} | {at0.path, at.path}
+    lits = set(x.get("v") for x in lit_fn.walk() if x.get("lk") == "str" and x.get("k") in ("Lit", "PatExpr"))
     R.check("R15-b", "kinds:as_type", set(KINDS) | {"LIST", "NON_NULL"} <= lits, "all __TypeKind values handled",
-            "as_type does not handle __TypeKind %s" % sorted((set(KINDS) | {"LIST", "NON_NULL"}) - lits), loc=at.loc())
+            "as_type does not handle __TypeKind %s" % sorted((set(KINDS) | {"LIST", "NON_NULL"}) - lits), loc=lit_fn.loc())
+    global _TAGS
+    _TAGS = tag_tables(P)
+    iterative = any(x.get("k") == "Loop" for x in at.walk()) and any(x.get("k") == "Field" and x.get("field") == "of_type" for x in at.walk())
     ati = inlined(P, at, pred=lambda g: g.path not in rec_set)
     pv = Prov(ati)
     sites = ctor_sites(ati, "Type")
@@ -219,10 +282,15 @@ def r15b(P, R):
                 verdicts.append(("undecided", "Type::%s is built under a condition this rule does not read as a test of `kind`" % variant))
             elif wrapper not in ks:
                 verdicts.append(("violated", "Type::%s is built for kind %s, not for %s" % (variant, sorted(ks), wrapper)))
-            elif not has_field(pv.atoms(region), "IntrospectionType", "of_type"):
-                verdicts.append(("violated", "the %s branch builds Type::%s without reading ofType" % (wrapper, variant)))
             elif ks != {wrapper}:
                 verdicts.append(("undecided", "Type::%s is built under kinds %s" % (variant, sorted(ks))))
+            elif iterative:
+                verdicts.append(("holds", ""))   # the ofType chain is peeled by a loop of this function (see level-marker for its flags)
+            elif not has_field(pv.atoms(region), "IntrospectionType", "of_type"):
+                if any(x.get("k") == "Field" and x.get("field") == "of_type" for g in rec_set for x in P.fns[g].walk()):
+                    verdicts.append(("undecided", "the %s branch builds Type::%s; ofType is read elsewhere in the converter" % (wrapper, variant)))
+                else:
+                    verdicts.append(("violated", "the %s branch builds Type::%s without reading ofType" % (wrapper, variant)))
             elif not any(call_name(x) in rec_set for x in subnodes(region) if x.get("k") in ("Call", "MethodCall")):
                 verdicts.append(("undecided", "the %s branch does not convert ofType by recursion" % wrapper))
             else:
@@ -300,6 +368,32 @@ def r15b(P, R):
             R.undecided("R15-b", key, "TypeDefinition::%s is built under a condition this rule does not read as a test of `kind` == %s" % (variant, kind), loc=ad0.loc())
 
 
+def _drops_only_absent(call):
+    """`filter_map(|x| <optional part of x>.as_ref().map(..))`: the closure tests nothing, it only passes an Option on — exactly the
+    elements whose optional part is absent are left out (the iterator spelling of `if let Some(..) = .. { push }`)"""
+    if call.get("method") != "filter_map" or not call["args"] or call["args"][0].get("k") != "Closure":
+        return False
+    e = call["args"][0]["body"]
+    while e.get("k") in ("BlockExpr", "DropTemps", "Use"):
+        if e.get("k") == "BlockExpr":
+            if e["b"]["stmts"] or "tail" not in e["b"]:
+                return False
+            e = e["b"]["tail"]
+        else:
+            e = e["e"]
+    seen_map = False
+    while e.get("k") == "MethodCall" and e["method"] in ("map", "as_ref", "as_deref", "cloned", "copied", "as_mut"):
+        if e["method"] == "map":
+            # the mapping closure converts, it must not decide: no Option-producing step inside
+            if any(y.get("k") == "MethodCall" and y.get("method") in ("then", "then_some", "filter", "and_then", "ok") for a_ in e["args"] for y in subnodes(a_)):
+                return False
+            seen_map = True
+        e = e["recv"]
+    while e.get("k") in ("AddrOf", "Unary") and "e" in e:
+        e = e["e"]
+    return seen_map and e.get("k") in ("Path", "Field")
+
+
 def r15c(P, R):
     # introspection structs: every field is read by the converter
     scope = sorted(p for p in P.fns if p.startswith("nitrogql_introspection::") and not P.fns[p].derived)
@@ -370,7 +464,7 @@ def r15c(P, R):
         calls = [c for c in f.walk() if c.get("k") == "MethodCall" and c["method"] in LOSSY_OR_REORDERING
                  and not peel_ty(c.get("recv_ty", "")).startswith(("std::collections::hash::", "hashbrown::", "alloc::collections::btree::", "indexmap::"))]
         lossy = [c["method"] for c in calls if c["method"] not in conditional]
-        cond = [c["method"] for c in calls if c["method"] in conditional]
+        cond = [c["method"] for c in calls if c["method"] in conditional and not _drops_only_absent(c)]
         if lossy:
             R.violated("R15-c", "lossy:" + short(f.path), "%s applies %s while converting: members are dropped on one route" % (f.path, lossy), loc=f.loc())
         elif cond:
@@ -519,6 +613,51 @@ def r15d(P, R):
             R.undecided("R15-d", key, "set_%s receives a value derived from __schema.%s" % (fld, sorted(got)), loc=h0.loc())
 
 
+def _flag_use(P, f, i, depth=0):
+    """how the Option<bool> value at nodes()[i] of f is consumed -> (True: by its value | False: by its mere presence | None, why).
+    A flag handed to a helper function is judged by what the helper does with that parameter."""
+    acc = f.nodes()
+    x = acc[i][0]
+    pi = acc[i][1]
+    p = acc[pi][0] if pi >= 0 else {}
+    while p.get("k") in ("AddrOf", "DropTemps", "Use") and acc[pi][1] >= 0:
+        x, pi = p, acc[pi][1]
+        p = acc[pi][0]
+
+    def closure_uses(call):
+        uses = False
+        for c in call["args"]:
+            if c.get("k") == "Closure" and c["params"]:
+                pid = [b.get("local") for b in subnodes(c["params"][0]) if b.get("k") == "Binding"]
+                uses = any(y.get("k") == "Path" and y.get("local") in pid for y in subnodes(c["body"]))
+        return uses
+    if p.get("k") == "MethodCall" and p.get("recv") is x:
+        m = p["method"]
+        if m in ("unwrap_or", "unwrap_or_default", "unwrap_or_else"):
+            return True, "value used through `%s`" % m
+        if m in ("and_then", "filter", "is_some_and", "map_or", "map_or_else"):
+            u = closure_uses(p)
+            return u, ("closure uses the boolean" if u else "closure of `%s` ignores the boolean" % m)
+        if m in ("map", "is_some", "is_none", "ok_or", "ok_or_else", "as_ref", "iter"):
+            u = closure_uses(p)
+            return u, ("value used" if u else "`.%s(..)` only tests presence" % m)
+        return None, ""
+    if p.get("k") == "Binary":
+        return True, "compared"
+    if p.get("k") in ("Call", "MethodCall") and depth < 2:
+        args = ([p["recv"]] if p.get("k") == "MethodCall" else []) + p["args"]
+        g = P.fns.get(call_name(p) or "")
+        pos = next((j for j, a_ in enumerate(args) if a_ is x), None)
+        if g is not None and not g.derived and pos is not None and pos < len(g.params) and g.params[pos].get("k") == "Binding":
+            lid = g.params[pos]["local"]
+            vs = [_flag_use(P, g, j, depth + 1) for j, (y, _) in enumerate(g.nodes()) if y.get("k") == "Path" and y.get("local") == lid]
+            if vs and all(v[0] is True for v in vs):
+                return True, "handed to %s, which uses the value (%s)" % (short(g.path), vs[0][1])
+            if any(v[0] is False for v in vs):
+                return False, "handed to %s: %s" % (short(g.path), next(v[1] for v in vs if v[0] is False))
+    return None, ""
+
+
 def r15e(P, R):
     """Option<bool> flags of the introspection result are consumed by their value, not by their presence"""
     flags = []
@@ -536,29 +675,7 @@ def r15e(P, R):
         for i, (x, _) in enumerate(acc):
             if x.get("k") == "Field" and (norm(x.get("adt")), x["field"]) in flags:
                 n += 1
-                pi = acc[i][1]
-                p = acc[pi][0] if pi >= 0 else {}
-                verdict, why = None, ""
-                if p.get("k") == "MethodCall" and p.get("recv") is x:
-                    m = p["method"]
-                    if m in ("unwrap_or", "unwrap_or_default", "unwrap_or_else"):
-                        verdict, why = True, "value used through `%s`" % m
-                    elif m in ("and_then", "filter", "is_some_and", "map_or", "map_or_else"):
-                        uses_param = False
-                        for c in p["args"]:
-                            if c.get("k") == "Closure" and c["params"]:
-                                pid = [b.get("local") for b in subnodes(c["params"][0]) if b.get("k") == "Binding"]
-                                uses_param = any(y.get("k") == "Path" and y.get("local") in pid for y in subnodes(c["body"]))
-                        verdict, why = uses_param, ("closure uses the boolean" if uses_param else "closure of `%s` ignores the boolean" % m)
-                    elif m in ("map", "is_some", "is_none", "ok_or", "ok_or_else", "as_ref", "iter"):
-                        uses_param = False
-                        for c in p["args"]:
-                            if c.get("k") == "Closure" and c["params"]:
-                                pid = [b.get("local") for b in subnodes(c["params"][0]) if b.get("k") == "Binding"]
-                                uses_param = any(y.get("k") == "Path" and y.get("local") in pid for y in subnodes(c["body"]))
-                        verdict, why = uses_param, ("value used" if uses_param else "`.%s(..)` only tests presence" % m)
-                elif p.get("k") in ("Binary",):
-                    verdict, why = True, "compared"
+                verdict, why = _flag_use(P, f, i)
                 key = "flag:%s.%s@%s" % (norm(x["adt"]).split("::")[-1], x["field"], short(f.path))
                 if verdict is None:
                     R.undecided("R15-e", key, "unrecognised use of the flag", loc=f.loc())
